@@ -1,7 +1,7 @@
 (** (round-3 extended universe) Refuted witnesses for the datetime options at dict keys
     and set members, for truncation before zone conversion and for datetime keys
     under key cleaning with a precision; witnesses that every part of the new guard is needed (the raising corners
-    C11-TRUNC-DATE, C11-NUMGROUP-DATETIME, C11-SIG-TIMEDELTA-SET, C11-SIG0-NAN); C11-ENUM-NONE is fixed (positive Example);
+    C11-NUMGROUP-DATETIME, C11-SIG-TIMEDELTA-SET, C11-SIG0-NAN); C11-ENUM-NONE and C11-TRUNC-DATE are fixed (positive Examples);
     non-vacuity examples with dyadic floats, datetimes, nan objects, Decimals, dates and Enum members inside
     structures: the relations, the guards and the hypotheses of the theorems are satisfiable together. *)
 From Coq Require Import List ZArith NArith Bool Arith String Lia.
@@ -84,14 +84,15 @@ Proof.
 Qed.
 
 (* ---- the new guards are needed ---- *)
-(* C11-TRUNC-DATE: a date (timedelta) leaf under truncate_datetime raises even against itself: [leaf_ok] *)
-Theorem y_trunc_date_leaf_refuted :
-  exists a, altL (XFtrunc UMinute) a a = true /\ xrun xcdef no_opts (VAtom a) (VAtom a) = Ok ([], []) /\
-            xrun xcdef (XFtrunc UMinute) (VAtom a) (VAtom a) = Err EType /\ leaf_ok (XFtrunc UMinute) a = false.
-Proof. exists (ADate 2024 6 1). repeat split; reflexivity. Qed.
-Theorem y_trunc_td_leaf_refuted :
-  exists a, xrun xcdef no_opts (VAtom a) (VAtom a) = Ok ([], []) /\ xrun xcdef (XFtrunc UMinute) (VAtom a) (VAtom a) = Err EAttr.
-Proof. exists (ATd 5000000). split; reflexivity. Qed.
+(* C11-TRUNC-DATE (fixed in 1c8f0f8: datetime_normalize truncates only datetime / time objects): under
+   truncate_datetime a date against itself and a timedelta against itself report nothing and raise nothing, and two
+   different dates are a values_changed entry with the ORIGINAL dates *)
+Example y_trunc_date_fixed :
+  xrun xcdef (XFtrunc UMinute) (VAtom (ADate 2024 6 1)) (VAtom (ADate 2024 6 1)) = Ok ([], []) /\
+  xrun xcdef (XFtrunc UMinute) (VAtom (ATd 5000000)) (VAtom (ATd 5000000)) = Ok ([], []) /\
+  xrun xcdef (XFtrunc UMinute) (VAtom (ADate 2024 6 1)) (VAtom (ADate 2024 6 2)) =
+    Ok ([mkEntry KValue [] [] (Some (VAtom (ADate 2024 6 1))) (Some (VAtom (ADate 2024 6 2))) None], []).
+Proof. repeat split; reflexivity. Qed.
 
 (* C11-SIG-TIMEDELTA-SET / C11-SIG0-NAN: a timedelta set member when a precision is in force, a nan set member with 0
    digits: [member_ok] *)
